@@ -2,9 +2,9 @@
 package main
 
 import (
-	"strings"
 	"encoding/json"
 	"fmt"
+	"strings"
 	"time"
 
 	"go.flow.arcalot.io/pluginsdk/mcrt"
@@ -352,6 +352,32 @@ func oneOfSpecs() []*ukit.Spec {
 	return out
 }
 
+// runChain: a finite chain of one-property objects against the reference: every raw value of the spec, and every valid
+// value with each one-property object also given as its lone value.
+func runChain(spec *ukit.Spec, tier string, res *ux.Result) {
+	var sch schema.Type
+	if pan, _, _ := ukit.Call(func() { sch = ukit.Build(spec) }); pan {
+		return
+	}
+	spec.Walk(func(n *ukit.Spec) {
+		if n.Kind == ukit.KScope {
+			ukit.Link(n)
+		}
+	})
+	inputs := ukit.RawValues(spec)
+	for _, v := range ukit.ValidValues(spec, 3) {
+		if sh, changed := ukit.Shorthand(spec, v); changed {
+			inputs = append(inputs, sh)
+		}
+	}
+	c := &checker{res: res, spec: spec, tier: tier}
+	c.run(sch, inputs, "chain of one-property objects")
+	res.Nontrivial++
+	if l := loaded(spec); l != nil {
+		c.run(l, inputs, "chain of one-property objects loaded from its description")
+	}
+}
+
 func main() {
 	ux.Main(ux.Harness{
 		Property:   "C03",
@@ -371,6 +397,7 @@ func main() {
 				out = append(out, batch{"oneof", i, i + 1})
 			}
 			out = append(out, batch{"shapes", 0, len(ukit.ShapeSpecs())})
+			out = append(out, batch{"chains", 0, len(ukit.SameIDChainSpecs())})
 			return out
 		},
 		Run: func(tier string, raw json.RawMessage, from int, deadline time.Time) ux.Result {
@@ -413,6 +440,14 @@ func main() {
 						})
 					}
 					res.Nontrivial++
+				}
+				return res
+			}
+			if b.Kind == "chains" {
+				// finite chains of one-property objects, two of which carry the same id: every raw value of the spec, and
+				// every valid value with each one-property object also given as its lone value
+				for _, spec := range ukit.SameIDChainSpecs() {
+					runChain(spec, tier, &res)
 				}
 				return res
 			}
@@ -481,6 +516,12 @@ func main() {
 				return nil
 			}
 			var res ux.Result
+			for _, ch := range ukit.SameIDChainSpecs() {
+				if ch.String() == r.Spec.String() {
+					runChain(ch, "thorough", &res)
+					return res.Findings
+				}
+			}
 			sch := ukit.Build(r.Spec)
 			r.Spec.Walk(func(n *ukit.Spec) {
 				if n.Kind == ukit.KScope {
@@ -517,7 +558,7 @@ func main() {
 			}
 			return res.Findings
 		},
-		Rule: "Unserialize on the constructor-built instance runs under the sorted and under every single deviating iteration order of every map it ranges over (map-order seam; the other operations under the sorted order); objects with 1-3 properties over property types {string[1..], int[0..5], nested object}: ALL combinations of the per-property flags required / required_if / required_if_not / conflicts (each over every subset of the other properties) / default / disabled for n=1 (3 types) and n=2 (string,int; map-based and struct-mapped with pointer fields), <=3 set flags for the other n=2 type pairs and value-field structs, <=2 (thorough 3) set flags for n=3; x every subset of supplied properties x {valid, type-invalid} value per supplied property in two map representations x {undeclared key, non-string key, nil, list, lone values}; every map-based object and one-of twice: built by the constructors, and loaded from its own description through the meta-schema without constructors (first use of all lazily computed state); Unserialize is compared with the reference presence interpreter (verdict and value incl. defaults), Validate/Serialize with the reference on every accepted native value and its one-key-removed / undeclared-key-added neighbours. The struct menu of the universe (9 shapes): Unserialize against the reference, and Validate / Serialize must accept every value Unserialize produced. One-ofs: string and int keys x inlined / not x map-based, struct-mapped and referenced members x discriminator in every representation / unknown / missing / wrong type x member-valid and member-invalid payloads; non-trivial = distinct object / one-of schemas",
+		Rule: "Unserialize on the constructor-built instance runs under the sorted and under every single deviating iteration order of every map it ranges over (map-order seam; the other operations under the sorted order); objects with 1-3 properties over property types {string[1..], int[0..5], nested object}: ALL combinations of the per-property flags required / required_if / required_if_not / conflicts (each over every subset of the other properties) / default / disabled for n=1 (3 types) and n=2 (string,int; map-based and struct-mapped with pointer fields), <=3 set flags for the other n=2 type pairs and value-field structs, <=2 (thorough 3) set flags for n=3; x every subset of supplied properties x {valid, type-invalid} value per supplied property in two map representations x {undeclared key, non-string key, nil, list, lone values}; every map-based object and one-of twice: built by the constructors, and loaded from its own description through the meta-schema without constructors (first use of all lazily computed state); Unserialize is compared with the reference presence interpreter (verdict and value incl. defaults), Validate/Serialize with the reference on every accepted native value and its one-key-removed / undeclared-key-added neighbours. Finite chains of one-property objects in which two different objects carry the same id (object used directly as a property type; embedded scope whose root is named like the enclosing root): raw values and the lone-value shorthand at every level. The struct menu of the universe (9 shapes): Unserialize against the reference, and Validate / Serialize must accept every value Unserialize produced. One-ofs: string and int keys x inlined / not x map-based, struct-mapped and referenced members x discriminator in every representation / unknown / missing / wrong type x member-valid and member-invalid payloads; non-trivial = distinct object / one-of schemas",
 		Assumptions: []string{
 			"defaults are applied first and never override a supplied value; then presence rules; a disabled property that is supplied or defaulted is 'in use'",
 			"Unknown (skipped): disabled properties in native values, struct-mapped native values, named string key types",
